@@ -547,9 +547,13 @@ func writeEvidence(prop, tier string, seed int, spec *CheckSpec, results []Harne
 		"wall_s":      round1(wall),
 		"violations":  nviol,
 	}
-	os.MkdirAll(filepath.Join(verifDir, "evidence"), 0755)
+	evdir := filepath.Join(verifDir, "evidence")
+	if d := os.Getenv("GOSYM_EVIDENCE_DIR"); d != "" {
+		evdir = d // used when the machinery itself is tested against seeded changes
+	}
+	os.MkdirAll(evdir, 0755)
 	b, _ := json.MarshalIndent(ev, "", " ")
-	os.WriteFile(filepath.Join(verifDir, "evidence", prop+".json"), b, 0644)
+	os.WriteFile(filepath.Join(evdir, prop+".json"), b, 0644)
 }
 
 func round1(f float64) float64 { return float64(int(f*10+0.5)) / 10 }
